@@ -484,6 +484,7 @@ def main():
     ap.add_argument("--no-replay", action="store_true")
     ap.add_argument("--replay")
     ap.add_argument("--list", action="store_true")
+    ap.add_argument("--cap", type=int, help="override every harness timeout (probing)")
     a = ap.parse_args()
     seed = int(os.environ.get("VERIF_SEED", "0") or 0)
 
@@ -499,6 +500,9 @@ def main():
     hs = [h for h in allh if prop in h.props and (tier == "thorough" or h.tier == "quick")]
     if a.only:
         hs = [h for h in hs if a.only in h.name]
+    if a.cap:
+        for h in hs:
+            h.timeout = a.cap
     if not hs:
         print("no harness for", prop)
         sys.exit(2)
